@@ -2102,6 +2102,15 @@ static void buildOrthogonalNudgingSegments(Router *router,
                     indexHigh = i - 1;
                 }
 
+                if ((*curr)->hasFixedRoute())
+                {
+                    // The route was given by the user, so none of its
+                    // segments may be shifted.
+                    segmentList.push_back(new NudgingShiftSegment(
+                            *curr, indexLow, indexHigh, dim));
+                    continue;
+                }
+
                 // Find the checkpoints on the current segment and the
                 // checkpoints on the adjoining segments that aren't on
                 // the corner (hence the +1 and -1 modifiers).
